@@ -248,7 +248,7 @@ Proof.
 Qed.
 
 Example ListArray_getitem_next_array_advanced_example :
-  ListArray_getitem_next_array_advanced [9;9] [9;9] [0; 3] [3; 5] [-1; 0] [1; 0] 2 2 5 = KOk ([0; 4], [0; 1]).
+  ListArray_getitem_next_array_advanced [9;9] [9;9] [0; 3] [3; 5] [-1; 0] [1; 0] 2 2 5 = KOk ([0; 4], [1; 0]).
 Proof. vm_compute. reflexivity. Qed.
 
 (* ================================================================================================ *)
@@ -283,7 +283,7 @@ Proof.
 Qed.
 
 Example RegularArray_getitem_next_array_advanced_example :
-  RegularArray_getitem_next_array_advanced [9;9] [9;9] [1; 0] [2; 0] 2 2 3 = KOk ([0; 5], [0; 1]).
+  RegularArray_getitem_next_array_advanced [9;9] [9;9] [1; 0] [2; 0] 2 2 3 = KOk ([0; 5], [1; 0]).
 Proof. vm_compute. reflexivity. Qed.
 
 Theorem RegularArray_getitem_next_array_regularize_safe toarray fromarray lenarray size :
